@@ -16,7 +16,7 @@ import (
 
 func init() {
 	vc.Register(&vc.Check{ID: "C20", Level: "model_checking", Run: run, Replay: replay, QuickSec: 80, ThoroSec: 1000, NeedsInst: true,
-		Rule: "systematic schedule exploration of the REAL library code (instrumented from the working tree at every run: package sync replaced by a scheduler-aware shim, a scheduling marker before every statement of reader, verifier, mobile and the cms certificate pools). Scenarios S1 shared reader.Reader (ReadDocument || SkipImages || WithAAChallenge), S2 shared verifier.Verifier (Verify || WithAAChallenge(c') || Verify), S3 shared mobile.Reader (ReadDocument || SetApduMaxLe;SkipImages || ReadDocument on one chip), S4 two readers + one verifier sharing a GenericCertPool inside a CombinedCertPool, S5/S5f three mobile.PreloadCscaCertPool + mobile.Verifier.Verify on the lazily loaded built-in store (S5f: a loader fails); fresh objects, a deterministic BAC + active-authentication chip (about 35 exchanges per read) and per-thread deterministic randomness in every execution. Per scenario EVERY schedule with at most P preemptions is executed (replay-prefix DFS; forced switches are free), at two granularities: 'sync' = scheduling points at every Lock/Unlock/Once.Do, every Transceive, every status callback, every trust store loader, every call of a certificate pool method (S1, S2, S4; in S3/S5 the pool traffic is not shared and these points are left to statement granularity) and thread start; 'stmt' = additionally before every statement of the instrumented files. Bounds per scenario are listed in coverage.scenarios. Oracle: the joint outcome (every call's result: error, files with content hashes, verdicts, AA nonce, exchanges; plus what the chip / status listener / loader counters saw) equals the outcome of SOME sequential order of the same calls (brute force over all interleavings of whole calls); S5: loaders ran exactly once and all callers saw one pool / one error; no deadlock; no panic. evaluations = schedules executed to completion and judged; states = distinct control states (vector of per-thread operation histories) at choice points, per worker; transitions = scheduling points executed; traces_validated_against_impl = executions of the real code; distinct_nontrivial = distinct (scenario, granularity, preemptions, outcome). The free-running -race pass (same bodies, real goroutines, shim in pass-through) is run by run_c20.sh after this part.",
+		Rule: "systematic schedule exploration of the REAL library code (instrumented from the working tree at every run: package sync replaced by a scheduler-aware shim, a scheduling marker before every statement of reader, verifier, mobile and the cms certificate pools). Scenarios S1 shared reader.Reader (ReadDocument || SkipImages || WithAAChallenge), S2 shared verifier.Verifier (Verify || WithAAChallenge(c') || Verify), S3 shared mobile.Reader (ReadDocument || SetApduMaxLe;SkipImages || ReadDocument on one chip), S4 two readers + one verifier sharing a GenericCertPool inside a CombinedCertPool, S5/S5f three mobile.PreloadCscaCertPool + mobile.Verifier.Verify on the lazily loaded built-in store (S5f: a loader fails); fresh objects, a deterministic BAC + active-authentication chip (about 35 exchanges per read) and per-thread deterministic randomness in every execution. Per scenario EVERY schedule with at most P preemptions is executed (replay-prefix DFS; forced switches are free), at two granularities: 'sync' = scheduling points at every Lock/Unlock/Once.Do, every Transceive, every status callback, every trust store loader, every call of a certificate pool method (S1, S2, S4; in S3/S5 the pool traffic is not shared and these points are left to statement granularity) and thread start; 'stmt' = additionally before every statement of the instrumented files. Bounds per scenario are listed in coverage.scenarios. Oracle: the joint outcome (every call's result: error, files with content hashes, verdicts, AA nonce, exchanges; plus what the chip / status listener / loader counters saw) equals the outcome of SOME sequential order of the same calls (brute force over all interleavings of whole calls); S5: loaders ran exactly once and all callers saw one pool / one error; no deadlock; no panic. evaluations = schedules executed to completion and judged; states = distinct control states (vector of per-thread operation histories) at choice points, per worker; transitions = scheduling points executed; traces_validated_against_impl = executions of the real code; distinct_nontrivial = distinct (scenario, granularity, preemptions, outcome). The free-running -race pass (same bodies, real goroutines, shim in pass-through; in S4 the three parties meet right before passive authentication; plus S6 = 6 verifiers released from a barrier on one shared CombinedCertPool / GenericCertPool and S7 = 4 mobile.Verifiers on the loaded built-in store, because the detector only sees conflicting accesses that are not separated by the library's own fmt/sync.Pool happens-before edges, i.e. practically simultaneous ones) is run by run_c20.sh alongside this part and folded in by worker 0.",
 		Assume: []string{
 			"scheduling points are statement boundaries of the instrumented files and the shim operations: interleavings inside one statement (expression evaluation order) and inside uninstrumented packages (iso7816, document, passiveauth, cms parsing) are not explored; those packages are only reached through per-call objects in these scenarios",
 			"the cooperative executions hide data races from the race detector by construction; unsynchronised accesses are the job of the statement-granularity exploration (they show as non-sequential outcomes) and of the separate free-running -race pass",
@@ -121,6 +121,10 @@ func run(c *vc.Ctx) {
 	var progs []*scProgress
 	for _, sc := range scenarios() {
 		if only != "" && !strings.Contains(","+only+",", ","+sc.id+",") {
+			continue
+		}
+		if sc.raceOnly {
+			scInfo = append(scInfo, map[string]any{"id": sc.id, "title": sc.title, "free_running_only": true})
 			continue
 		}
 		ref, names, legend, err := reference(e, sc)
